@@ -459,7 +459,7 @@ impl Prop for C18P {
     }
     fn plan(&self, tier: Tier, _seed: u64) -> Plan {
         let mut p = Plan::new(
-            vec![sec("accepted-terms", tier.pick(45_000, 300_000)), sec("rejected-terms", tier.pick(24_000, 160_000))],
+            vec![sec("accepted-terms", tier.pick(90_000, 300_000)), sec("rejected-terms", tier.pick(48_000, 160_000))],
             "closed explicit programs whose outer structure is parameters and definition groups are peeled (1-6 frames; groups of 1-5 definitions, so entries are looked up from scopes 0-10 deeper than where they were pushed); the inner term is type checked, normalised and unified under the resulting contexts and the results compared with the closed program (types by R-core); single-point perturbations inside the inner term give terms rejected part-way through nested scopes; both contexts are snapshotted (length, offsets, Rc identity, structure) before every call and compared afterwards; non-trivial = distinct closed program with at least one frame",
         );
         p.assumptions = vec!["hole-free contexts (explicit programs) so that 'unchanged' is unambiguous".into(), "types are compared by R-core with parameters as rigid variables and groups transparent".into()];
